@@ -1,6 +1,6 @@
 (* Glue between generated C14 case files and the models (Model/Scale.v, Model/Render.v). *)
 From Coq Require Import List NArith ZArith QArith Qround Bool.
-From RareV Require Import Base.Hex Base.Num Base.Res Gen.GenPalette Model.Scale Model.Render Model.Humanize Corr.Run.
+From RareV Require Import Base.Hex Base.Num Base.Res Gen.GenPalette Model.Scale Model.Render Model.Humanize Corr.Run Proofs.RenderHisto.
 Import ListNotations.
 Local Open Scope Z_scope.
 
@@ -24,9 +24,24 @@ Definition keys_of (mp : mapper) : Z -> Z -> list Z :=
   | MLin => fun mn mx => scale_keys (m_of MLin) round53 (fun q => q) 6 mn mx
   | MTab _ kt => fun mn mx => klookup mn mx kt
   end.
-Definition fmt_of (fk : N) : Z -> str := match fk with 0%N => itoa | _ => humanize_int end.
+(* the formatter: Passthru, Default (humanize), or a --format expression of literal text and the
+   references {0}/{val}, {1}/{min}, {2}/{max} (termformat.FromExpression; the expression compiler
+   itself belongs to C09/C10) *)
+Inductive piece := PLit (s : str) | PRef (k : N).
+Inductive fspec := FPass | FHuman | FTmpl (ps : list piece).
+Definition fmt_of (f : fspec) (v mn mx : Z) : str :=
+  match f with
+  | FPass => itoa v
+  | FHuman => humanize_int v
+  | FTmpl ps => concat (map (fun p => match p with
+                                      | PLit s => s
+                                      | PRef 0%N => itoa v
+                                      | PRef 1%N => itoa mn
+                                      | PRef _ => itoa mx
+                                      end) ps)
+  end.
 
-Record cfg := mkCfg { c_col : bool; c_uni : bool; c_mp : mapper; c_fk : N }.
+Record cfg := mkCfg { c_col : bool; c_uni : bool; c_mp : mapper; c_fk : fspec }.
 
 Inductive cin :=
 | IScale (mp : mapper) (mn mx : Z) (vs : list Z)       (* Scaler.Scale on ascending vs *)
@@ -42,7 +57,8 @@ Inductive cin :=
 | IBarG (c : cfg) (size : Z) (stacked : bool) (ks : list str) (ops : list b_op)
 | IHeat (c : cfg) (rlim clim : nat) (aggs : list agg)
 | ISpark (c : cfg) (rlim clim : nat) (aggs : list agg)
-| IData (c : cfg) (ncols nrows : nat) (rowtot coltot : bool) (aggs : list agg).
+| IData (c : cfg) (ncols nrows : nat) (rowtot coltot : bool) (aggs : list agg)
+| IFmt (f : fspec) (calls : list (Z * Z * Z)).         (* one compiled formatter, a sequence of calls *)
 
 (* OFail: the implementation panicked or did not return within the watchdog's limit *)
 Inductive obs := OQ (l : list Q) | OZ (l : list Z) | OS (l : list str) | OFail.
@@ -131,6 +147,7 @@ Definition model (i : cin) : obs :=
       end
   | IData c ncols nrows rt ct aggs =>
       OS (vlines (c_col c) (snd (data_tables c ncols nrows rt ct (dt_new ncols nrows) aggs)))
+  | IFmt f calls => OS (map (fun x => fmt_of f (fst (fst x)) (snd (fst x)) (snd x)) calls)
   end.
 
 (* ---------- the property's boolean form on an observed output ---------- *)
@@ -214,27 +231,40 @@ Definition heat_chk (c : cfg) (rlim clim : nat) (a : agg) (lines : list str) : b
 (* sparkline: the number of sparkline runes on a row is what the key and the First/Last numbers
    contribute plus one per displayed column *)
 Definition spark_alpha (c : cfg) : list N := if c_uni c then sparkBlocks else sparkAscii.
-Definition spark_row_chk (c : cfg) (k : nat) (lines : list str) (j : nat) (r : str * list Z * Z) : bool :=
+Definition spark_row_chk (c : cfg) (mn mx : Z) (k : nat) (lines : list str) (j : nat) (r : str * list Z * Z) : bool :=
   let vals := last_cols k (r_vals r) in
-  let vf := match vals with [] => [] | v :: _ => fmt_of (c_fk c) v end in
-  let vl := match vals with [] => [] | _ => fmt_of (c_fk c) (last vals 0) end in
+  let vf := match vals with [] => [] | v :: _ => fmt_of (c_fk c) v mn mx end in
+  let vl := match vals with [] => [] | _ => fmt_of (c_fk c) (last vals 0) mn mx end in
   Nat.eqb (count_in (spark_alpha c) (nth (S j) lines []))
           (count_in (spark_alpha c) (name_cell c r) + count_in (spark_alpha c) vf + count_in (spark_alpha c) vl + k).
 Definition spark_chk (c : cfg) (rlim clim : nat) (a : agg) (lines : list str) : bool :=
   let k := Nat.min clim (length (a_cols a)) in
   let rc := Nat.min (length (a_rows a)) rlim in
-  all_idx (spark_row_chk c k lines) 0 (firstn rc (a_rows a)) &&
+  all_idx (spark_row_chk c (a_min a) (a_max a) k lines) 0 (firstn rc (a_rows a)) &&
   (if (rc <? length (a_rows a))%nat
    then existsb (fun l => str_eqb l (more_txt (lenZ (a_rows a) - Z.of_nat rc))) lines else true).
 
 (* data table: the displayed numbers are the aggregated numbers under the formatter, in column order *)
-Definition data_row_words (c : cfg) (k : nat) (rt : bool) (r : str * list Z * Z) : list str :=
-  let f := fmt_of (c_fk c) in
+Definition data_row_words (c : cfg) (mn mx : Z) (k : nat) (rt : bool) (r : str * list Z * Z) : list str :=
+  let f := fun v => fmt_of (c_fk c) v mn mx in
   words [] (name_cell c r ++ [SP] ++ join_sp (map f (firstn k (r_vals r))) ++ (if rt then f (r_sum r) else [])).
-Definition data_row_chk (c : cfg) (k : nat) (rt : bool) (lines : list str) (j : nat) (r : str * list Z * Z) : bool :=
-  Sl_eqb (words [] (nth (S j) lines [])) (data_row_words c k rt r).
+Definition data_row_chk (c : cfg) (mn mx : Z) (k : nat) (rt : bool) (lines : list str) (j : nat) (r : str * list Z * Z) : bool :=
+  Sl_eqb (words [] (nth (S j) lines [])) (data_row_words c mn mx k rt r).
 Definition data_chk (c : cfg) (ncols nrows : nat) (rt : bool) (a : agg) (lines : list str) : bool :=
-  all_idx (data_row_chk c (Nat.min ncols (length (a_cols a))) rt lines) 0 (firstn nrows (a_rows a)).
+  all_idx (data_row_chk c (a_min a) (a_max a) (Nat.min ncols (length (a_cols a))) rt lines) 0 (firstn nrows (a_rows a)).
+
+(* histogram, the final screen: every displayed line (value > 0) is the line of its key and value
+   under the final running maximum and key width — its bar is the bar of its value against the
+   CURRENT maximum, in whatever order the lines were written *)
+Definition histo_chk (c : cfg) (n : nat) (sb : bool) (ops : list h_op) (lines : list str) : bool :=
+  let h := hstate (c_col c) n ops in
+  all_idx (fun i kv =>
+             if 0 <? snd kv then
+               match histo_line (c_col c) (c_uni c) (m_of (c_mp c)) round53 (fmt_of (c_fk c)) sb h (fst kv) (snd kv) with
+               | Ok l => str_eqb (nth i lines []) (vis (c_col c) l)
+               | Panic => false
+               end
+             else true) 0 (h_items h).
 
 Definition check (i : cin) (o : obs) : bool :=
   match i, o with
@@ -254,7 +284,10 @@ Definition check (i : cin) (o : obs) : bool :=
   | ISparkC _ us, OS l => Nat.eqb (length l) (length us) && forallb (fun s => lenZ s =? 1) l
   | ITable col maxc maxr ops, OS lines =>
       rows_ok col (spec_widths col maxc maxr ops) 0 (spec_rows maxr ops) lines
-  | IHisto _ _ _ _, OS _ => true
+  | IHisto c n sb ops, OS lines => histo_chk c n sb ops lines
+  | IFmt f calls, OS l =>
+      (* the output is a function of (value, min, max) alone: the template instantiated *)
+      zip_all (fun x out => str_eqb out (fmt_of f (fst (fst x)) (snd (fst x)) (snd x))) calls l
   | IBarG _ _ _ _ _, OS _ => true
   | IHeat c rlim clim aggs, OS lines =>
       match last_agg aggs with None => true | Some a => heat_chk c rlim clim a lines end
@@ -278,7 +311,9 @@ Definition hT (t : Z) : h_op := HTotal t.
 Definition hF (n : Z) (s : str) : h_op := HFoot (zn n) s.
 Definition bB (n : Z) (k : str) (vs : list Z) : b_op := BBar (zn n) k vs.
 Definition bF (n : Z) (s : str) : b_op := BFoot (zn n) s.
-Definition cf (col uni : bool) (mp : mapper) (fk : Z) : cfg := mkCfg col uni mp (Z.to_N fk).
+Definition cf (col uni : bool) (mp : mapper) (fk : fspec) : cfg := mkCfg col uni mp fk.
+Definition pL (s : str) : piece := PLit s.
+Definition pR (k : Z) : piece := PRef (Z.to_N k).
 Definition iTable (col : bool) (maxc maxr : Z) ops := ITable col (zn maxc) (zn maxr) ops.
 Definition iHisto c (n : Z) sb ops := IHisto c (zn n) sb ops.
 Definition iHeat c (r k : Z) aggs := IHeat c (zn r) (zn k) aggs.
